@@ -19,7 +19,7 @@ RULE = (
 )
 FAULT_KEYS = ["adversarial_choice", "shuffle", "swap_unequal_reads", "swap_q_more_reads_than_p"]
 PROBE_KEYS = ["draws_from_verified_vector", "sweeps_full", "choice_fidelity_checked", "gibbs_vectors", "mh_pairs", "swap_pairs", "unbalanced_tau_target", "selfing_target", "one_unknown_parent_target",
-              "target_has_children", "swap_no_proposal", "swap_q_more_reads_than_p", "zero_density_skip", "cli_pedigrees_checked", "cli_unsequenced_member"]
+              "target_has_children", "selfing_one_column", "refit_same_model", "swap_no_proposal", "swap_q_more_reads_than_p", "zero_density_skip", "cli_pedigrees_checked", "cli_unsequenced_member"]
 OPTIONAL_PROBES = {"quick": (), "thorough": ()}
 COMPONENTS = {
     "real": ["mchap.pedigree.mcmc.* (gibbs_probabilities, metropolis_hastings_probabilities, allele_step, sample_step, compound_step, pair_allele_swap_step, mcmc_sampler)",
